@@ -551,5 +551,8 @@ def check_C02(ctx):
                    'run in a child process once per (hook site, hit number) stop point (sites with many hits: first 2, last 2 and seeded others), '
                    'the process is ended there without cleanup, the directory is reopened with the real engine, observed, written to again, '
                    'reopened and observed again; each outcome is one trace validated by TLC against KevoDurable. distinct_nontrivial = distinct '
-                   '(program, site, hit) stop points actually reached',
+                   '(program, site, hit) stop points actually reached. Torn variants remove bytes / whole physical records / everything behind the last '
+                   'record header, only inside what the write in flight added. KevoRetention (log retention on a primary) is model-checked and '
+                   'TLC-generated walks (put, flush as a step of its own, acknowledge, file-count retention, die, recover) are replayed on a real '
+                   'primary with an acknowledging protocol client, one child process per life',
                    extra={'exhaustive': False})
